@@ -8,6 +8,7 @@ mod keys;
 mod obs_b64;
 mod obs_cjson;
 mod obs_claims;
+mod obs_keys;
 mod obs_pae;
 mod payload;
 mod prng;
@@ -39,6 +40,12 @@ fn main() {
             println!("lines={}", rec.finish());
         }
         "gen-fixtures" => keys::gen_fixtures(),
+        "obs-keys" => {
+            let mut rec = Recorder::create(&out);
+            std::panic::set_hook(Box::new(|_| {}));
+            obs_keys::run(&mut rec, thorough, seed);
+            println!("lines={}", rec.finish());
+        }
         "obs-terms" => {
             let mut rec = Recorder::create(&out);
             let kinds: Vec<String> = arg(&args, "--kinds").unwrap_or_else(|| "local,public,pie,pw,pke,keyid".into()).split(',').map(|x| x.to_string()).collect();
